@@ -60,51 +60,56 @@ def encode(doc):
           for c in adm.audioContents]
     os_ = []
     for o in adm.audioObjects:
-        params = (o.start is not None or o.duration is not None or o.gain != 1.0 or o.mute
-                  or o.positionOffset is not None or bool(o.alternativeValueSets))
+        params = "%d%d%d%d%d" % (o.start is not None, o.duration is not None, o.gain != 1.0, bool(o.mute),
+                                 o.positionOffset is not None)
         tracks = ",".join("s" if t is None else str(ref("atu", t)) for t in o.audioTrackUIDs) or "-"
-        os_.append("%s %s %s %s %d %s" % (_lst(refs("ao", o.audioObjects)), _lst(refs("apf", o.audioPackFormats)), tracks,
-                                          _lst(refs("ao", o.audioComplementaryObjects)), 1 if params else 0,
+        os_.append("%s %s %s %s %s %s" % (_lst(refs("ao", o.audioObjects)), _lst(refs("apf", o.audioPackFormats)), tracks,
+                                          _lst(refs("ao", o.audioComplementaryObjects)), params,
                                           _lst(avs_tokens(o.alternativeValueSets))))
+    # parameter values -> tokens (equal values = equal tokens, as Python's `!=` sees them); the tokens the model
+    # gives a meaning to: normalization 0 = "SN3D", screenRef 0 = False (the getters' defaults), nfcRefDist 0 = 0.0
+    norm_tok = dict(NORM)
+    nfc_tok, time_tok, dist_tok = {0.0: 0}, {}, {}
+
+    def tokn(table, v):
+        return None if v is None else table.setdefault(v, len(table))
+
     pks = []
     for p in adm.audioPackFormats:
-        if p.absoluteDistance is not None or p.nfcRefDist is not None:
-            raise Outside("pack-parameter")
-        norm = None if p.normalization is None else NORM[p.normalization]
         scr = None if p.screenRef is None else int(p.screenRef)
-        pks.append("%d %s %s %s %s %s %s %s" % (
+        pks.append("%d %s %s %s %s %s %s %s %s %s" % (
             TYPE_CODE[p.type.name], _lst(refs("acf", p.audioChannelFormats)), _lst(refs("apf", p.audioPackFormats)),
             _lst(refs("apf", p.encodePackFormats)), _opt(ref("apf", p.inputPackFormat)),
-            _opt(ref("apf", p.outputPackFormat)), _opt(norm), _opt(scr)))
+            _opt(ref("apf", p.outputPackFormat)), _opt(tokn(norm_tok, p.normalization)), _opt(scr),
+            _opt(tokn(nfc_tok, p.nfcRefDist)), _opt(tokn(dist_tok, p.absoluteDistance))))
     chs = []
     E = D._imports()[0]
     for c in adm.audioChannelFormats:
         bl = []
         for b in c.audioBlockFormats:
             cart = eq = 0
-            order = degree = norm = scr = out = None
+            order = degree = norm = scr = out = nfc = None
             coeffs = "-"
             if c.type.name == "Objects":
                 cart = int(bool(b.cartesian) != isinstance(b.position, E.ObjectCartesianPosition))
             elif c.type.name == "HOA":
-                if b.rtime is not None or b.duration is not None or b.nfcRefDist is not None:
-                    raise Outside("hoa-block-parameter")
                 eq = int(b.equation is not None)
                 order, degree = b.order, b.degree
-                norm = None if b.normalization is None else NORM[b.normalization]
+                norm = tokn(norm_tok, b.normalization)
                 scr = None if b.screenRef is None else int(b.screenRef)
+                nfc = tokn(nfc_tok, b.nfcRefDist)
             elif c.type.name == "Matrix":
-                if b.rtime is not None or b.duration is not None:
-                    raise Outside("matrix-block-time")
                 out = ref("acf", b.outputChannelFormat)
                 cos = []
                 for co in b.matrix:
                     bad = (co.gainVar is not None or co.delayVar is not None or co.phaseVar is not None
-                           or co.phase is not None or (co.delay is not None and co.delay < 0))
-                    cos.append("%s.%d" % (_opt(ref("acf", co.inputChannelFormat)), int(bad)))
+                           or co.phase is not None)
+                    neg = co.delay is not None and co.delay < 0
+                    cos.append("%s.%d.%d" % (_opt(ref("acf", co.inputChannelFormat)), int(bad), int(neg)))
                 coeffs = ",".join(cos) or "-"
-            bl.append("%d:%d:%s:%s:%s:%s:%s:%s" % (cart, eq, _opt(order), _opt(degree), _opt(norm), _opt(scr),
-                                                   _opt(out), coeffs))
+            bl.append("%d:%d:%s:%s:%s:%s:%s:%s:%s:%s:%s" % (
+                cart, eq, _opt(order), _opt(degree), _opt(norm), _opt(scr), _opt(out), coeffs,
+                _opt(tokn(time_tok, b.rtime)), _opt(tokn(time_tok, b.duration)), _opt(nfc)))
         freq = int(c.frequency.lowPass is not None or c.frequency.highPass is not None)
         chs.append("%d %d %s" % (TYPE_CODE[c.type.name], freq, "/".join(bl) or "-"))
     ss = ["%s %s" % (_opt(ref("acf", s.audioChannelFormat)), _opt(ref("apf", s.audioPackFormat)))
@@ -120,11 +125,81 @@ def encode(doc):
 
 
 def real_class(r):
+    """items:<n> | adm:<kind>@<function>:<ordinal of the raise statement> | internal:<exception>:<function>"""
     if r["cls"] == "items":
         return "items:%d" % r["n"]
     if r["cls"] == "adm":
-        return "adm:" + r["kind"]
+        return "adm:%s@%s" % (r["kind"], r["site"])
     return "internal:%s:%s" % (r["exc"], r["fn"])
+
+
+# --------------------------------------------------------------------------------------
+# structured diagnostics: what the model says the message reads vs what the real message contains
+
+import re as _re
+
+_ID = _re.compile(r"\b(?:APR|ACO|AO|AP|AC|AS|ATU|AT|AB|AVS)_[0-9A-Za-z_]+")
+_REASONS = [
+    ("manyPacks", _re.compile(r"^reference to more than one audioPackFormat$")),
+    ("tracksNoPacks", _re.compile(r"^references to audioTrackUIDs but not to audioPackFormats$")),
+    ("packsNoTracks", _re.compile(r"^references to audioPackFormats but not to audioTrackUIDs$")),
+    ("trackPackNotInObject", _re.compile(r"is not referenced from audioObject$")),
+    ("packLacksChannel", _re.compile(r"does not reference audioChannelFormat .* which is referenced by audioTrackUID")),
+]
+
+
+def expected_ids(doc, reads):
+    """the `.id` strings the model's diagnostic reads, in order (ids that are `None` print as 'None': dropped);
+    returns None if a token cannot be resolved (would be a harness/model mismatch)"""
+    adm = doc.adm
+    tokens = {}
+    for o in adm.audioProgrammes + adm.audioContents + adm.audioObjects:
+        for a in o.alternativeValueSets:
+            tokens.setdefault(id(a), (len(tokens), a))
+    # same numbering as `encode`: programmes, contents, then objects
+    by_tok = {t: a for t, a in tokens.values()}
+    out = []
+    for tok in reads:
+        if tok in ("-", "chna") or tok.startswith(("tn.", "n:", "pn:", "r:")):
+            continue
+        kind, _, arg = tok.partition(":")
+        try:
+            if kind == "ab":
+                c, _, b = arg.partition(".")
+                v = adm.audioChannelFormats[int(c)].audioBlockFormats[int(b)].id
+            elif kind == "avs":
+                v = by_tok[int(arg)].id
+            else:
+                v = getattr(adm, D.LISTS[kind])[int(arg)].id
+        except (KeyError, IndexError, ValueError):
+            return None
+        if v is not None:
+            out.append(v)
+    return out
+
+
+def diag_agrees(doc, reads, r):
+    """(ok, what) : element ids in the real message == ids the model's diagnostic reads; reason kinds of an
+    AdmFormatRefError == the model's reasons; parameter name == the model's"""
+    reads = [t for t in reads.split(",") if t]
+    exp = expected_ids(doc, reads)
+    if exp is None:
+        return False, "unresolvable read in %r" % (reads,)
+    got = _ID.findall(r["full"])
+    if exp != got:
+        return False, "ids read %r, ids in the message %r" % (exp, got)
+    model_reasons = [t[2:] for t in reads if t.startswith("r:")]
+    real_reasons = []
+    for reason in r["reasons"]:
+        for name, pat in _REASONS:
+            if pat.search(reason):
+                real_reasons.append(name)
+                break
+        else:
+            real_reasons.append("other:" + reason[:40])
+    if model_reasons != real_reasons:
+        return False, "reasons %r vs %r" % (model_reasons, real_reasons)
+    return True, ""
 
 
 # --------------------------------------------------------------------------------------
@@ -227,27 +302,37 @@ class C14(Spec):
     lean_targets = ("Earverif.Props.C14", "c14driver")
     props_module = "Earverif.Props.C14"
     theorems = tuple("Earverif.Validate." + t for t in (
-        "select_no_internal_partial", "validate_no_internal_partial", "allocator_init_no_internal",
-        "resolved_iff_unique_valid_partial", "conflicting_is_error", "ambiguous_is_error", "allocProblem_wf",
-        "processState_decided", "processState_noInt", "packChannels_nodup",
-        "diagnostics_total", "raiseError_adm", "empty_pack_rejected_though_spec_valid",
+        "select_no_internal_partial", "select_outcome_partial", "validate_no_internal_partial",
+        "allocator_init_no_internal",
+        # diagnostics are built without raising
+        "multitree_diagnostics_total", "mtDfs_inv", "loopMsg_noInt", "diamondMsg_noInt", "path_param_message_total",
+        "diagnostics_total", "raiseError_adm", "extraData_noInt", "importanceOf_noInt", "hoaItemParams_noInt",
+        "hoaParams_noInt",
+        # unique resolution, channel-less packs included
+        "resolved_iff_unique_valid", "conflicting_is_error", "ambiguous_is_error", "empty_pack_outcome",
+        "empty_pack_outcome_regular", "effProblem_valid_iff", "allocProblem_wf", "allocProblem_wf_dropEmpty",
+        "processState_decided", "processState_noInt", "packChannels_nodup", "empty_pack_rejected_though_spec_valid",
         "multitree_sound", "multitreeSound_holds", "mtDfs_ok",
         "validateMatrixTypes_noInt", "validateEncodeRef_noInt", "validateMatrixPack_ok", "patterns_noInt", "patterns_ok",
         "matrixTrackSpec_noInt", "renderingItems_noInt",
         "validateAvsReferences_noInt", "avs_refs_unique", "avsSelected_noInt", "avs_assert_total",
         "hoa_reachable_one_block", "hoaParams_ok_nonempty", "selectComplementary_noInt",
         "hoa_empty_pack_is_adm", "unsupported_type_is_adm", "coefficient_without_input_is_adm",
-        "encode_without_refs_is_adm", "shared_avs_defeats_validation"))
+        "encode_without_refs_is_adm", "shared_avs_defeats_validation")) + (
+        "Earverif.PackAlloc.allocImpl_filter", "Earverif.PackAlloc.allocatePacks_dropEmpty",
+        "Earverif.PackAlloc.selectPackMapping_dropEmpty")
     trusted_base = (
-        "model Earverif/Model/AdmV.lean + Validate.lean: hand transliteration of ADM.validate (MatrixCoefficient, "
-        "stream and trackFormat element validators), validate.validate_structure (every _validate_* function incl. the "
-        "Matrix branch of _validate_matrix_types and _validate_avs_references), matrix.type_of / input_pack_format, "
-        "validate_selected_audioTrackUID, possible_reference_errors and helpers, and of select_items "
-        "(_PackAllocator.get_wrapped_packs / wrap_matrix_pack, _select_complementary_objects, "
-        "_select_programme_content_objects, select_pack_mapping, raise_error, Regular/MatrixAllocationPack "
-        "output_pack / output_channel_allocation, _get_rendering_items incl. _get_pack_format_path, the HOA "
-        "get_single_param calls and _get_alternativeValueSet); references are list indices, identity comparison is "
-        "index (token) equality",
+        "model Earverif/Model/AdmV.lean + Validate.lean: hand transliteration of ADM.validate (AudioBlockFormat, "
+        "MatrixCoefficient, stream and trackFormat element validators), validate.validate_structure (every _validate_* "
+        "function incl. the Matrix branch of _validate_matrix_types and _validate_avs_references), matrix.type_of / "
+        "input_pack_format, validate_selected_audioTrackUID, possible_reference_errors and helpers, utils.get_path_param / "
+        "get_single_param, the getters of hoa.py, and of select_items (_PackAllocator.get_wrapped_packs / "
+        "wrap_matrix_pack, _select_complementary_objects, _select_programme_content_objects, select_pack_mapping, "
+        "raise_error, Regular/MatrixAllocationPack output_pack / output_channel_allocation, _get_rendering_items incl. "
+        "_get_pack_format_path, the HOA get_single_param / get_per_channel_param calls, _get_extra_data, "
+        "_get_importance and _get_alternativeValueSet); references are list indices, identity comparison is index "
+        "(token) equality, parameter values are value tokens; every raise statement is one AdmKind whose Msg lists the "
+        "values its message reads (checked against the ids in the real message on every case)",
         "the pack allocator inside the model is C07's Lean model Earverif.PackAlloc (allocate_packs and the decision "
         "of select_pack_mapping; its own correspondence and theorems alloc_sound / alloc_complete / alloc_nodup / "
         "accept_iff_unique are property C07); this model builds the allocation problem from the document "
@@ -258,36 +343,44 @@ class C14(Spec):
         "graph walks in the model use fuel = number of elements (+1/+2); equality with Python's unbounded recursion "
         "on documents that passed the loop validations is not proved (checked by the correspondence)",
         "audioProgramme ids increase with list position (generate_ids), so min(key=id) is the first programme",
+        "the raise-site table AdmKind.site is compared on every run with the raise statements found in the sources of "
+        "validate.py, select_items.py, utils.py, hoa.py, matrix.py, pack_allocation.py, main_elements.py and "
+        "block_formats.py by ast (harness/c14_docs.code_sites); four raise statements there are outside item selection "
+        "(listed with reasons in c14_docs.SITES_NOT_MODELLED)",
     )
     assumptions = (
         "documents are closed object graphs: every referenced element is registered in the ADM (wellScoped) and an "
         "alternativeValueSet element is the child of one audioObject (avsOwned; sharing one AlternativeValueSet "
         "instance between two audioObjects is only possible through the Python API and does defeat the validation: "
         "theorem shared_avs_defeats_validation); references point at elements of the right class and attribute "
-        "values have the types the attrs validators demand (cross-class references making attrs raise TypeError and "
-        "wrong Python types are outside the quantifier)",
-        "modelled parameter values: block rtime/duration, HOA nfcRefDist and pack absoluteDistance unset (never set "
-        "by the generators; a document using them is search-only)",
+        "values have the types the attrs validators demand (cross-class references making attrs raise TypeError, "
+        "wrong Python types and element ids that are None -- min(audioProgrammes, key=id) compares ids -- are outside "
+        "the quantifier)",
         "audio_programme argument is None or a programme of the document; selected_complementary_objects are "
         "objects of the document",
     )
     rule = (
-        "case = (generated valid document recipe, fault list, call arguments); recipes: 19 document kinds x "
-        "{BS.2076-1 trackFormat refs (version None / 1), BS.2076-2 channelFormat refs} x variants; no fault, every "
-        "single structural fault at every site (retarget to every other element of the kind / remove / add / "
-        "duplicate / drop / insert (loops) / silence a reference, typeDefinition change, track index missing or "
-        "duplicated, object parameters, channel content, HOA parameters, call arguments), then seeded random double "
-        "faults (second fault drawn from the sites of the once-faulted document); non-trivial = at least one fault; "
-        "distinct by (recipe, faults); compared: items:<count> / adm:<message family> / exception type"
+        "case = (generated valid document recipe, fault list, call arguments); recipes: 21 document kinds (incl. nested "
+        "HOA packs with parameters at several levels and audioPackFormats without channels) x {BS.2076-1 trackFormat "
+        "refs (version None / 1), BS.2076-2 channelFormat refs} x variants; no fault, every single structural fault at "
+        "every site (retarget to every other element of the kind / remove / add / duplicate / drop / insert (loops) / "
+        "silence a reference, typeDefinition change, track index missing or duplicated, object parameters, channel "
+        "content, block rtime/duration (one, both, different values), HOA normalization / screenRef / nfcRefDist (0.0 "
+        "and two other values) in blocks and packs, pack absoluteDistance, matrix coefficient phase / negative delay, "
+        "stream referencing a pack, call arguments), then seeded random double faults (second fault drawn from the "
+        "sites of the once-faulted document); non-trivial = at least one fault; distinct by (recipe, faults); "
+        "compared: items:<count> / adm:<kind>@<function>:<ordinal of the raise statement> + the structured "
+        "diagnostic (element ids the message reads, reasons of AdmFormatRefError) / exception type"
     )
 
     ORDER_SENSITIVE = ("nestedpack", "chna_nested", "matrix_direct", "matrix_decode", "matrix_encdec", "matrix_pre",
-                       "nested", "comp")
+                       "nested", "comp", "hoa_nested")
 
     # ---- case stream ----
 
     def recipes(self, ctx):
-        nvar = {"objects": 4, "comp": 3, "twoprog": 3, "chna": 6, "avs": 4, "mixed": 4 if ctx.quick else 12}
+        nvar = {"objects": 4, "comp": 3, "twoprog": 3, "chna": 6, "avs": 4, "hoa_nested": 4, "emptypack": 4,
+                "mixed": 4 if ctx.quick else 12}
         out = []
         for kind in D.DOC_KINDS:
             for style in (1, 2):
@@ -422,6 +515,7 @@ class C14(Spec):
         self._seeds = []  # (recipe, faults) on which model and code disagree: seeds of the guided search
         driver = Driver("c14driver", "Earverif.Driver.C14")
         lines, metas = [], []
+        reached = {}
         for rec, faults in self.stream(ctx):
             doc = D.build_faulty(rec, faults)
             if doc is None:
@@ -437,10 +531,12 @@ class C14(Spec):
             ctx.count("doc:" + rec[0])
             for f in faults:
                 ctx.count("fault:" + D.fault_kind(f))
-                ctx.count("site:" + D.site_kind(f))
+                ctx.count("fault-site:" + D.site_kind(f))
             ctx.count("outcome:" + (cls if r["cls"] != "items" else "items"))
             if r["cls"] == "adm":
                 ctx.count("exception:" + r["exc"])
+                ctx.count("site:" + r["site"])
+                reached[r["site"]] = reached.get(r["site"], 0) + 1
             self._predicate(ctx, rec, faults, doc, r)
             try:
                 line = encode(doc)
@@ -449,10 +545,13 @@ class C14(Spec):
                 ctx.case((rec, faults, "search-only"), nf > 0)
                 continue
             lines.append(line)
-            metas.append((rec, faults, cls, r))
-        outs = driver.run(lines)
-        for (rec, faults, cls, r), line, out in zip(metas, lines, outs):
+            metas.append((rec, faults, cls, r, doc))
+        outs = driver.run(["sites"] + lines)
+        self._site_table(ctx, outs[0], reached)
+        outs = outs[1:]
+        for (rec, faults, cls, r, doc), line, out in zip(metas, lines, outs):
             res, _, mt = out.partition(" mt=")
+            res, _, reads = res.partition(" ")
             sample = None
             if faults and r["cls"] != "items":
                 sample = {"doc": rec, "faults": faults, "real": cls, "model": res}
@@ -471,16 +570,51 @@ class C14(Spec):
                 kind = model.split(":")[1]
                 exp = {"index": "IndexError", "unpack": "ValueError", "attrNone": "AttributeError",
                        "assert": "AssertionError", "typeError": "TypeError",
-                       "notImplemented": "NotImplementedError"}[kind]
+                       "notImplemented": "NotImplementedError", "valueError": "ValueError"}[kind]
                 ok = r["cls"] == "internal" and r["exc"] == exp
             else:
+                # items:<n>, or kind of the raise site AND the raise site itself (function, ordinal of the statement)
                 ok = model == cls
+            if ok and r["cls"] == "adm":
+                # the structured diagnostic: ids the model says the message reads == ids in the real message, reasons
+                # of an AdmFormatRefError == the model's reasons
+                ok2, what = diag_agrees(doc, reads, r)
+                ctx.count("diagnostic:" + ("agrees" if ok2 else "differs"))
+                if not ok2:
+                    self._seeds.append((rec, list(faults), model, cls))
+                    ctx.disagree("structured diagnostic of %s: %s" % (model, what), {"doc": rec, "faults": faults},
+                                 reads, r["msg"])
+                    continue
             if ok:
                 ctx.validated()
             else:
                 self._seeds.append((rec, list(faults), model, cls))
                 ctx.disagree("select_rendering_items vs Earverif.Validate.selectItems",
                              {"doc": rec, "faults": faults}, model, cls)
+
+    def _site_table(self, ctx, table_line, reached):
+        """the model's raise-site table (AdmKind.site) against the `raise` statements found in the sources with `ast`
+        (an ADM-error raise statement the model does not know, or a modelled one that is gone, breaks the tie), and
+        the coverage of the sites by the generated stream"""
+        model = {}
+        for ent in table_line.split(";"):
+            k, _, site = ent.partition("=")
+            model.setdefault(site, []).append(k)
+        code = {"%s:%d" % q: name for q, name in D.code_sites().items() if q not in D.SITES_NOT_MODELLED}
+        ctx.count("raise-sites:in-code", len(code))
+        ctx.count("raise-sites:in-model", len(model))
+        if set(code) != set(model) or any(not n.startswith("Adm") for n in code.values()):
+            ctx.disagree("raise sites of the item-selection modules vs the model's table (Earverif.Validate.AdmKind.site)",
+                         {"only-in-code": sorted(set(code) - set(model)), "only-in-model": sorted(set(model) - set(code)),
+                          "not-an-ADM-error": sorted(k for k, n in code.items() if not n.startswith("Adm"))},
+                         sorted(model), sorted(code))
+        else:
+            ctx.validated()
+        never = sorted(set(model) - set(reached))
+        ctx.count("raise-sites:reached", len(set(model) & set(reached)))
+        for site in never:
+            ctx.count("site-never-reached:" + site)
+        self._never_reached = never
 
     def _guided(self, ctx):
         """Disagreement-guided failing-input search (DESIGN 1.3): documents on which the model and the code
@@ -581,39 +715,45 @@ FORMER_FAMILIES = (
 
 REGISTRY = dict(
     text="PARTIAL: Lean theorem Earverif.Validate.select_no_internal_partial proves, for every well-scoped document "
-    "graph (Matrix packs and alternativeValueSets included) and every programme/complementary selection, that the "
-    "model of select_rendering_items never ends in a non-ADM exception, by a chain of 'after _validate_X succeeded, "
-    "step Y is total' lemmas: validate_structure with all thirteen _validate_* functions "
-    "(validate_no_internal_partial: no hypothesis; every matrix.type_of, [encode_apf] = ..., [block_format] = ... and "
-    "'assert obj is not None' is preceded by its guard in any declaration order), the allocator's packs "
-    "(allocator_init_no_internal: wrap_matrix_pack), complementary objects, programme/content/object traversal, "
-    "track validation, select_pack_mapping with the pack allocator itself (C07's Lean model of allocate_packs called "
-    "on the problem built from the document: no oracle, no hypothesis on the allocator), raise_error diagnostics, "
-    "Regular/Matrix output_channel_allocation (matrixTrackSpec_noInt) and rendering-item construction incl. "
-    "_get_pack_format_path (multitree_sound, proved) and _get_alternativeValueSet (avs_assert_total). "
-    "resolved_iff_unique_valid_partial states the property's second sentence about the document via C07's "
-    "accept_iff_unique: for a state whose tracks passed validation, no valid assignment => the Conflicting ADM error, "
-    "two inequivalent ones => the Ambiguous ADM error, exactly one <=> the allocator accepts it and the outcome is its "
-    "rendering, items returned => exactly one valid assignment; C07's WF of the built problem is derived from the "
-    "validation model (allocProblem_wf: distinct pack/track objects by construction, distinct channels per "
-    "allocation pack from the multitree check) except 'no allocation pack without channels', which stays a "
-    "hypothesis (empty_pack_rejected_though_spec_valid shows why). diagnostics_total / raiseError_adm: "
-    "possible_reference_errors is total for both referencing styles and raise_error raises exactly the error asked "
-    "for. _partial only because message formatting, attrs validators (cross-class references), recursion depth and "
-    "a few parameter values the generators leave unset (rtime/duration, nfcRefDist, absoluteDistance) are outside "
-    "the model. The model is tied to the code on every run by a fault injector (every single fault at every site, "
-    "declaration-order variants, sampled double faults on 19 kinds of generated documents in both referencing "
-    "styles, all inside the model) comparing items count / AdmError message family / exception type directly (the "
-    "real allocator's solutions are no longer replayed); the direct predicates (only AdmError escapes; items only "
-    "when an independent brute-force count of the allocations is exactly 1) run on the same stream, on a "
-    "disagreement-guided stream when the correspondence breaks, and in the thorough tier on triple faults.",
+    "graph (Matrix packs, alternativeValueSets and all parameter values included) and every programme/complementary "
+    "selection, that the model of select_rendering_items never ends in a non-ADM exception, by a chain of 'after "
+    "_validate_X succeeded, step Y is total' lemmas -- and since round 7 this covers the failure paths' own "
+    "operations: every raise statement is one constructor (62 raise sites, table compared with the sources by ast on "
+    "every run) carrying a structured diagnostic Msg with every .id / .type.name / len() its message reads, and every "
+    "read that can fail while a message is built is a step of the model: input_channel.id, acf.id / apf.id / "
+    "audioPackFormat.encodePackFormats in the reasons of possible_reference_errors (diagnostics_total), "
+    "loop_exception's .index() and diamond_exception's two max() (multitree_diagnostics_total, mtDfs_inv: both paths "
+    "start at the DFS root), get_path_param's path[0] / path[-1] (path_param_message_total), raise_error's "
+    "audioObject.id. Also inside now: block rtime/duration (element validator, _validate_matrix_channel, HOA "
+    "get_single_param), nfcRefDist incl. 0.0 -> None, absoluteDistance in _get_extra_data, the per-channel getters "
+    "and _get_importance's min() (extraData_noInt, importanceOf_noInt, hoaItemParams_noInt). validate_structure alone "
+    "(validate_no_internal_partial) needs no hypothesis. resolved_iff_unique_valid states the property's second "
+    "sentence about the document via C07's accept_iff_unique, now WITHOUT the 'no allocation pack without channels' "
+    "hypothesis: the allocator never allocates such a pack (PackAlloc.allocImpl_filter / allocatePacks_dropEmpty, "
+    "proved about C07's model), so it decides the problem with those packs removed, whose well-formedness follows "
+    "from validation alone (allocProblem_wf_dropEmpty); for a state whose tracks passed validation: no valid "
+    "assignment => Conflicting, two inequivalent ones => Ambiguous, exactly one <=> the allocator accepts it and the "
+    "outcome is its rendering, items returned => exactly one valid assignment (valid = meets the allocate_packs "
+    "docstring and uses no channel-less pack: effProblem_valid_iff). empty_pack_outcome(_regular): an audioObject "
+    "that references an audioPackFormat all of whose allocation packs are empty gets exactly the Conflicting ADM "
+    "error. _partial only because attrs validators (cross-class references, None ids), recursion depth and str() of "
+    "the exception are outside the model. The model is tied to the code on every run by a fault injector (every "
+    "single fault at every site, declaration-order variants, sampled double faults on 21 kinds of generated "
+    "documents in both referencing styles, all inside the model) comparing items count / raise-site kind AND raise "
+    "site (function, ordinal of the raise statement, from the traceback) / the structured diagnostic (ids in the "
+    "real message = ids the model reads, AdmFormatRefError reasons) / exception type; raise-site coverage is in the "
+    "evidence (site:<function>:<n>, site-never-reached:...; all 62 sites are reached); the direct predicates (only "
+    "AdmError escapes; items only when an independent brute-force count of the allocations is exactly 1) run on the "
+    "same stream, on a disagreement-guided stream when the correspondence breaks, and in the thorough tier on triple "
+    "faults.",
     note="Five families of escaping non-ADM exceptions found by this check were repaired in /repo (0d9f6b4, 03146b0, "
     "592dfc9, 76cae51); each is reported again under its tag internal:<exception>:<function> if it returns. "
-    "Outside the quantifier: cross-class references (attrs TypeError) and an AlternativeValueSet instance shared by "
-    "two audioObjects (AssertionError in _get_alternativeValueSet; not producible from XML). Trusted: Lean kernel, "
-    "the hand transliteration + correspondence (incl. C07's allocator model, imported).",
-    technique="Lean 4 proof (validation-order lemma chain over an Except-valued transliteration, C07's allocator "
-    "theorems for the uniqueness statement) + fault-injection differential correspondence + direct predicate search "
-    "on the real code",
+    "Outside the quantifier: cross-class references (attrs TypeError), element ids that are None with more than one "
+    "audioProgramme (TypeError in min(key=id)) and an AlternativeValueSet instance shared by two audioObjects "
+    "(AssertionError in _get_alternativeValueSet; not producible from XML). Trusted: Lean kernel, the hand "
+    "transliteration + correspondence (incl. C07's allocator model, imported).",
+    technique="Lean 4 proof (validation-order lemma chain over an Except-valued transliteration with structured "
+    "diagnostics, C07's allocator theorems for the uniqueness statement) + fault-injection differential "
+    "correspondence (outcome, raise site, diagnostic) + direct predicate search on the real code",
     design_ref="DESIGN.md section 4, C14",
 )
